@@ -1,4 +1,34 @@
-(* placeholder so that the pipeline can be exercised; replaced by the real theorems *)
-From SV Require Import Names Rep.
-Theorem C15_placeholder : True. Proof. exact I. Qed.
-Print Assumptions C15_placeholder.
+(* C15 -- relabelling changes names and nothing else.  Theorem statements only; proofs in
+   RelabelProofs.v.  Proved: one accepted rename carries every listing pointwise and leaves the
+   boundary / basis matrices, hence order, position, faces, cofaces and basis (read from them),
+   alone; the user's function is called at most once per simplex.  The sequential algorithm
+   rejects forward chains: refuted by a witness (known finding).  Tested only: the multi-name
+   relabel as a whole, relabelDisjointFrom, Betti invariance. *)
+From Coq Require Import String ZArith Bool Arith List.
+From SV Require Import Names NamesFacts ListFacts Rep Fresh Complex Atomic RepInv Reach RelabelProofs.
+Import ListNotations.
+
+Theorem C15_one_rename_carries_structure_partial :
+  forall r s q r', pinv r -> relabelSimplex r s q = (r', Ok tt) ->
+  r_bnd r' = r_bnd r /\ r_bas r' = r_bas r /\ r_nord r' = r_nord r /\
+  (forall k, idxk r' k = map (ren1 s q) (idxk r k)) /\
+  (forall h, assoc s (r_attr r) = Some h -> assoc s (r_attr r) = Some h -> In (q, h) (r_attr r')).
+Proof. exact relabelSimplex_carries. Qed.
+Print Assumptions C15_one_rename_carries_structure_partial.
+
+(* names read off an unchanged matrix column against a renamed listing are the renamed names *)
+Theorem C15_names_follow_listing :
+  forall (f : name -> name) names col, names_of_col (map f names) col = map f (names_of_col names col).
+Proof. exact names_of_col_map. Qed.
+Print Assumptions C15_names_follow_listing.
+
+Theorem C15_called_once : forall r rn r' st x, relabel r rn = (r', st, x) -> NoDup (rl_calls st).
+Proof. exact relabel_called_once. Qed.
+Print Assumptions C15_called_once.
+
+Theorem C15_forward_chain_refuted :
+  snd (relabel two_points (RMap [(NStr "a", NStr "b"); (NStr "b", NStr "c")])) = Raise ValueError /\
+  snd (relabel two_points (RMap [(NStr "b", NStr "c"); (NStr "a", NStr "x")])) =
+    Ok [(NStr "a", NStr "x"); (NStr "b", NStr "c")].
+Proof. exact forward_chain_refuted. Qed.
+Print Assumptions C15_forward_chain_refuted.
